@@ -76,6 +76,7 @@ var kindArgs = []string{
 	"func(a) {return a}", "func(a,b) {return a . b}",
 	"9223372036854775807", "-9223372036854775807 - 1", "0", "-1", "1e308", "-0.0", "0x7fffffffffffffff", "1.5e-320",
 	`"%d"`, `"%s%s%s"`, `"%"`, `"("`, `"[a-"`, `"\."`, `"%Y-%m-%dT%H:%M:%SZ"`, `"héllo"`, `"\xff\xfe"`, `"1,2;3"`, `"-5"`, "[]", "{}", `[1,[2,[3]]]`,
+	`"(a)(b)(c)(d)(e)(f)(g)(h)(i)(j)(k)"`, `"abcdefghijkl"`, `("\"" . "i")`, `("/" . "i")`, `("\"" . "\"")`, `("/" . "/")`, `"\"i"`, `("\"" . "\"i")`,
 	`{"a":{"b":[1,{"c":2}]}}`, `[1, @nosuch, ("a" + 1)]`, `{"a": ("a" + 1)}`, "1000000", "-1000000", `"Asia/Istanbul"`, `"nosuch/zone"`,
 }
 
@@ -275,6 +276,10 @@ func genC18rd(r *rng, thorough bool) {
 }
 
 var validPrograms = []string{
+	// more capture groups than the ten slots \0..\9, matching and not; captures used afterwards
+	`if ("abcdefghijkl" =~ "(a)(b)(c)(d)(e)(f)(g)(h)(i)(j)(k)(l)") {$y = "\9:\1"} $z = sub($a, "(p)(a)(n)()()()()()()()()", "<\9\1>")`,
+	`$y = "abcdefghij" =~ "(a)(b)(c)(d)(e)(f)(g)(h)(i)(j)"; $z = "\0"; $w = "xyz" !=~ "(x)(y)(z)()()()()()()()()"; $v = matchx("abcdefghijk", "(a)(b)(c)(d)(e)(f)(g)(h)(i)(j)(k)")`,
+	`$y = any([1], func(e) { return "abcdefghijk" =~ "(((((((((((a)))))))))))" }); $z = "\9" . strmatchx("abcdefghijk", "(a)(b)(c)(d)(e)(f)(g)(h)(i)(j)(k)")["captures"][11]`,
 	`$z = $x + 1`, `if ($x > 1) {$y = "a"} elif (true) {$y = "b"} else {unset $x}`, `for (k, v in $*) {$[k."_new"] = v}`,
 	`func f(str s, int n): str { return s . n } $y = f("a", 1)`, `@sum[$a][$b] += $x; end {emit @sum, "a", "b"}`,
 	`$* = mapsum({"new": NR}, $*)`, `while (true) {break}`, `do {$i = 1} while (false)`, `$y = $x =~ "^(a)(b)?" ? "\1:\2" : "no"`,
